@@ -73,7 +73,7 @@ INSTANCES = {
         'quick': [raw(2, [0, 1, 3], 3, [1, 2], random=(30, 60)),
                   raw(1, [0, 2], 3, [1], random=(10, 40))],
         'thorough': [raw(2, [0, 1, 3], 4, [1, 2], random=(200, 120)),
-                     raw(3, [0, 1, 2, 4], 4, [1, 2], random=(200, 200)),
+                     raw(3, [0, 1, 2, 4], 4, [1, 2], random=(200, 200)), raw(2, [0, 1, 2147483647], 3, [1], random=(50, 100)),
                      raw(1, [0, 1, 2], 3, [1, 2], random=(50, 60))],
     },
     'slru': {
